@@ -194,3 +194,9 @@ LEVEL_NOTE = ('Trusted: Lean kernel + standard axioms; scheduler model ~ Engine.
               'initial-state keys are covered by the metamorphic oracle on the implementation (layers are sorted by '
               'path, C05). set-updates to distinct variables are covered by the oracle only.')
 TECHNIQUE = 'Lean 4 simulation-relation proof (permutation invariance) + metamorphic correspondence'
+
+
+# structural updates issued by steps: all viewers started at one instant see one committed state
+from harness import structstep as _ss          # noqa: E402
+from harness.mixins import add_family as _add_family   # noqa: E402
+_add_family(globals(), _ss, 'structstep', lambda case, impl: _ss.oracle(case, impl, who=('snapshot', 'viewer')))
